@@ -105,7 +105,8 @@ Print Assumptions C03_attr_parse_roundtrip_partial.
 
 (* ---------------------------------------------------------------------------------------------------
    CHARACTER LEVEL (proofs/AttrText*.v).  The written grammar, as data:
-     selem  = name + list of parts;   part = `#v` | `.v` | `[a1 a2 ... an]` (single spaces between);
+     selem  = name + list of parts + optionally a text `{T}` written last;
+     part   = `#v` | `.v` | `[a1 a2 ... an]` (single spaces between);
      sattr  = optional `!` (implied) + name + optional `.` (boolean) + value;
      value  = nothing | `=` | `=v` | `='q'` / `="q"` | `={e}`.
    Alphabets ([selem_ok]): element name and shorthand values are non-empty runs of name characters
@@ -115,7 +116,7 @@ Print Assumptions C03_attr_parse_roundtrip_partial.
    value is a non-empty run over [asafe] plus parentheses that balance ([uq_ok]); a quoted value is ANY
    text in which the quote itself, `$` and `\` occur only escaped by `\` ([qpayload]: brackets, braces,
    operators, the other quote, white space, line breaks free); an expression value is any text whose
-   braces balance modulo escapes and whose `$` are escaped ([bal 0]).
+   braces balance modulo escapes and whose `$` are escaped ([bal 0]); the text `{T}` likewise (C04).
    [elem_text e] is the text, [written_mentions e] the list of mentions it denotes (SPEC, AttrTextConvert):
    `#v` -> id=v raw, `.v` -> class=v raw, n -> no value, n= -> no value, n=v -> [v] raw,
    n='q' -> [unescape q] single (n="q" double; nothing for an empty q), n={e} -> [unescape e] expression,
@@ -129,7 +130,8 @@ Print Assumptions C03_element_tokens_text.
 
 (* (1) element_attributes_text.  For EVERY element of the grammar -- any number and order of `#id`,
    `.class` and `[ ... ]` parts, any mix of value forms -- tokenize + parse + convert of its text gives
-   ONE node, named as written, without value and children, whose attribute list (before merging) is
+   ONE node, named as written, without children, whose value is the text `{T}` with escapes resolved
+   ([elem_text_value]: nothing when no text is written) and whose attribute list (before merging) is
    exactly the written mentions in order: name, value, value type (raw / single / double / expression)
    and boolean / implied flags.  ([jsx_ok]: under jsx a Capitalized name followed by `.Capitalized` is a
    component path, so the name must not start with a capital there.)
@@ -141,7 +143,7 @@ Theorem C03_element_attributes_text :
   forall (jsx : bool) (env : cenv) (max_repeat : option N) (e : selem),
     selem_ok e -> jsx_ok jsx e -> ce_text env = WNone ->
     parse_abbr jsx env max_repeat (elem_text e) =
-      Ok [ANode (Some (se_name e)) None None (attrs_opt (written_mentions e)) [] false].
+      Ok [ANode (Some (se_name e)) (elem_text_value e) None (attrs_opt (written_mentions e)) [] false].
 Proof. exact element_attributes_text. Qed.
 Print Assumptions C03_element_attributes_text.
 
@@ -186,43 +188,50 @@ Print Assumptions C03_statement_attributes_text.
 
 (* (4) the WHOLE pipeline on one element.  markup.parse -- tokenize, parse, convert, snippet resolution,
    transform -- of the text of an element whose name is neither a snippet nor `lorem...` yields the one
-   node carrying [merge_spec] of the written mentions ... *)
+   node carrying [merge_spec] of the written mentions ...  ([xsl_rule_applies]: under the xsl syntax an
+   xsl:variable / xsl:with-param WITH content loses its `select` attribute -- the xsl addon, excluded.) *)
 Theorem C03_element_markup_parse :
   forall (cfg : mconfig) (e : selem),
     selem_ok e -> jsx_ok (mc_jsx cfg) e -> mc_text cfg = WNone ->
     assoc_str (se_name e) (mc_snippets cfg) = None -> match_lorem (se_name e) = LNo ->
+    xsl_rule_applies cfg e = false ->
     markup_parse cfg (elem_text e) =
-      Ok [ANode (Some (se_name e)) None None
+      Ok [ANode (Some (se_name e)) (elem_text_value e) None
                 (match written_mentions e with [] => None | m => Some (merge_spec (mc_reverse_attrs cfg) [] m) end)
                 [] false].
 Proof. exact markup_parse_elem. Qed.
 Print Assumptions C03_element_markup_parse.
 
-(* ... and expand() writes it as  <name attr...></name> : the attributes are those of [merge_spec] on the
+(* ... and expand() writes it as  <name attr...>text</name> : the attributes are those of [merge_spec] on the
    written mentions (first mention fixes the position, class values joined, last/first value wins), each
    written by the decision table [attr_out_spec] of C03_attr_out_table (quotes / braces, boolean
    expansion or compact form, implied dropped, tabstop for an empty value, names through
    markup.attributes and attributeCase).  For ALL elements of the grammar, all configurations with:
    an HTML-family syntax (html, xml, xsl, jsx, vue ...: the haml / slim / pug formatters are C15), no
    comment filter, no leaf formatting for this element, and values free of line breaks (a line break
-   inside a value is re-indented by the output stream: C04_text_not_reparsed / C12). *)
+   inside a value is re-indented by the output stream: C04_text_not_reparsed / C12); the text, if any,
+   is free of line breaks and does not start with a block-level tag ([value_inline]: such text is
+   put on lines of its own). *)
 Theorem C03_expand_element_text :
   forall (x : xconfig) (e : selem),
     let m := xc_m x in
     let c := xc_o x in
     selem_ok e -> jsx_ok (mc_jsx m) e -> mc_text m = WNone ->
     assoc_str (se_name e) (mc_snippets m) = None -> match_lorem (se_name e) = LNo ->
+    xsl_rule_applies m e = false ->
     html_family (mc_syntax m) -> oc_comment_enabled c = false ->
     oc_format_leaf c = false -> mem_str (se_name e) (oc_format_force c) = false ->
     let attrs := merge_spec (mc_reverse_attrs m) [] (written_mentions e) in
     Forall (fun a => form_nl_free (attr_out_spec c a)) attrs ->
+    value_inline c (elem_text_value e) ->
     expand_markup_str x (elem_text e) =
       Ok (c_lt :: tag_name c (se_name e) ++ attrs_text_out c attrs
-          ++ [c_gt] ++ [c_lt; c_slash] ++ tag_name c (se_name e) ++ [c_gt]).
+          ++ [c_gt] ++ elem_out_text e ++ [c_lt; c_slash] ++ tag_name c (se_name e) ++ [c_gt]).
 Proof. exact expand_element_text. Qed.
 Print Assumptions C03_expand_element_text.
 
-(* non-vacuity of (4): a.x[b=f(1) c. !d class='y z']#i  expands to  <a class="x y z" b="f(1)" c="c" id="i"></a> *)
+(* non-vacuity of (4): a.x[b=f(1) c. !d class='y z']#i{5 > 3 \{ok\}}  expands to
+   <a class="x y z" b="f(1)" c="c" id="i">5 > 3 {ok}</a> *)
 Example C03_expand_nonvacuous :
   let x := mkX (mkMConfig (S "html") [] [] WNone None None false None [] false false)
                (mkOconfig (mkOfmt [] [] []) [] [] (S "double") true false [] [] 0 false [] (S "html") [] false [] [] []
@@ -231,14 +240,16 @@ Example C03_expand_nonvacuous :
              [PClass (S "x");
               PSet [mkSAttr false (S "b") false (SUnq (S "f(1)")); mkSAttr false (S "c") true SNone;
                     mkSAttr true (S "d") false SNone; mkSAttr false (S "class") false (SQuo true (S "y z"))];
-              PId (S "i")] in
+              PId (S "i")] (Some (S "5 > 3 \{ok\}")) in
   selem_ok e /\ html_family (mc_syntax (xc_m x)) /\
   Forall (fun a => form_nl_free (attr_out_spec (xc_o x) a)) (merge_spec false [] (written_mentions e)) /\
-  elem_text e = S "a.x[b=f(1) c. !d class='y z']#i" /\
-  expand_markup_str x (elem_text e) = Ok (S "<a class=""x y z"" b=""f(1)"" c=""c"" id=""i""></a>").
+  value_inline (xc_o x) (elem_text_value e) /\
+  elem_text e = S "a.x[b=f(1) c. !d class='y z']#i{5 > 3 \{ok\}}" /\
+  expand_markup_str x (elem_text e) = Ok (S "<a class=""x y z"" b=""f(1)"" c=""c"" id=""i"">5 > 3 {ok}</a>").
 Proof.
-  cbv zeta. split; [split; [split; [discriminate|repeat constructor]|repeat constructor; try discriminate]|].
-  split; [repeat split|]. split; [vm_compute; repeat constructor|]. split; vm_compute; reflexivity.
+  cbv zeta. split; [split; [split; [discriminate|repeat constructor]|split; [repeat constructor; try discriminate|reflexivity]]|].
+  split; [repeat split|]. split; [vm_compute; repeat constructor|]. split; [vm_compute; repeat constructor|].
+  split; vm_compute; reflexivity.
 Qed.
 
 (* non-vacuity of the character-level theorems: a#x.y[!p. q= r=a*3/4>.# f=g(1) s='a \' ] (c)' t={ x{y} }].z *)
@@ -248,7 +259,7 @@ Example C03_text_nonvacuous :
               PSet [mkSAttr true (S "p") true SNone; mkSAttr false (S "q") false SEmpty;
                     mkSAttr false (S "r") false (SUnq (S "a*3/4>.#")); mkSAttr false (S "f") false (SUnq (S "g(1)"));
                     mkSAttr false (S "s") true (SQuo true (S "a \' ] (c)")); mkSAttr false (S "t") false (SBrace (S " x{y} "))];
-              PClass (S "z")] in
+              PClass (S "z")] None in
   selem_ok e /\ jsx_ok false e /\
   elem_text e = S "a#x.y[!p. q= r=a*3/4>.# f=g(1) s.='a \' ] (c)' t={ x{y} }].z" /\
   written_mentions e =
@@ -263,15 +274,15 @@ Example C03_text_nonvacuous :
      mkAAttr (Some (S "class")) (Some [VStr (S "z")]) VRaw false false false].
 Proof.
   cbv zeta. split; [|split; [left; reflexivity|split; vm_compute; reflexivity]].
-  split; [split; [discriminate|repeat constructor]|]. repeat constructor; try discriminate.
+  split; [split; [discriminate|repeat constructor]|]. split; [|exact I]. repeat constructor; try discriminate.
 Qed.
 
-(* ... and of the statement theorem: a.x>b[c=1]+d#e satisfies its hypothesis *)
+(* ... and of the statement theorem: a.x>b[c=1]{t>u}+d#e satisfies its hypothesis *)
 Example C03_statement_nonvacuous :
-  let xs := [(mkSElem (S "a") [PClass (S "x")], SChild);
-             (mkSElem (S "b") [PSet [mkSAttr false (S "c") false (SUnq (S "1"))]], SSibling);
-             (mkSElem (S "d") [PId (S "e")], SSibling)] in
-  Forall (fun x => selem_ok (fst x) /\ jsx_ok false (fst x)) xs /\ stmt_text xs = S "a.x>b[c=1]+d#e".
+  let xs := [(mkSElem (S "a") [PClass (S "x")] None, SChild);
+             (mkSElem (S "b") [PSet [mkSAttr false (S "c") false (SUnq (S "1"))]] (Some (S "t>u")), SSibling);
+             (mkSElem (S "d") [PId (S "e")] None, SSibling)] in
+  Forall (fun x => selem_ok (fst x) /\ jsx_ok false (fst x)) xs /\ stmt_text xs = S "a.x>b[c=1]{t>u}+d#e".
 Proof.
   cbv zeta. split; [|vm_compute; reflexivity].
   repeat constructor; try discriminate.
